@@ -15,6 +15,12 @@ claimed = {
          "Type separation of Equals and of the hash domains that SET/MULTISET equality relies on is decided structurally for all ten node types; four untagged hash domains are genuine defects recorded as known findings with concrete witnesses. Collisions inside one type and precision arithmetic are not decided.", "4 C04"),
  "C15": ("static analysis: interprocedural storage-origin / mutation-summary analysis (R-PURE), order-insensitivity of every map range (R-MAPORDER)",
          "No instruction reachable from the read-only API writes memory reachable from its inputs, and no map iteration order can reach an output: decided for all call histories because it is a property of the code, not of a run.", "4 C15"),
+ "C05": ("static analysis: option-forwarding rule over all diff functions, Equals/hashCode option congruence, hash-domain tags of list elements, CLI exit-status dataflow",
+         "Structural necessary conditions of `Diff empty iff Equals` (Diff consults the options Equals is asked about; hash-based matching sees the same equivalence; exit status 1 exactly where the rendered diff is non-empty) are decided for all inputs; three genuine defects are recorded as known findings with witnesses. Digest collisions and merge-sentinel ambiguity are not decided.", "4 C05"),
+ "C13": ("static analysis: may-panic site inventory over the read/patch call-graph closure, discharged by compiler bounds-check elimination, guard-fact dataflow and closed-world lemmas; CLI error-routing rule",
+         "Every potentially panicking instruction reachable from reading arbitrary text or applying a read diff is an obligation discharged by a named schema or reported; this is a proof-style inventory over all inputs for the stated scope (Diff and the renderers are outside it).", "4 C13"),
+ "C14": ("static analysis: control/data-flow contract rules over both package main (exit discipline, output sinks, flag/mode tables by flag-value pruning, input provenance, error routing)",
+         "The CLI contract is decided as facts about every path of both binaries: exit codes, -o exclusivity, printed value = library rendering, flag→option and mode→reader/renderer tables for every documented value, input roles, error routing. Content-level round trips are not decided.", "4 C14"),
 }
 na = {}
 props = [json.loads(l) for l in open(os.path.join(V, "properties.jsonl"))]
